@@ -14,6 +14,7 @@
 //	LOG <text>                         (tail of stdout+stderr when exit != 0 or timeout)
 //	TRACE <event> <gen>
 //	NOFILE ok|created                  (only for OUTFILE 0)
+//	PREEXIST mode=<1|2> unchanged=<0|1> (LAYOUT pre 1/2: was the stale out.h5 left byte-for-byte as it was)
 //	IMPL <model> <label> NONE | <rank> <d0> .. : <hex>..
 //	IMPLMAIN <model> <label> ...       (SPLIT models: what out.h5 holds)
 //	IMPL-NOTE <text>                   (a dataset that package io could not read)
@@ -271,12 +272,51 @@ func runCase(out *bufio.Writer, bin, work string, index int, casefile string) (o
 	finalFn := filepath.Join(dir, "final_states.h5")
 	splitFn := func(m string) string { return filepath.Join(dir, "split_"+m+".h5") }
 
-	if err := writeInputFile(inFn, c); err != nil {
+	// what goes where (LAYOUT): the structure file keeps the real table (0), nothing (1) or a decoy (2)
+	inStruct := func(mode int) int { return []int{1, 0, 2}[mode%3] }
+	if err := writeCaseFile(inFn, c, fileContent{structure: true, params: inStruct(c.LayoutPar),
+		states: inStruct(c.LayoutSt), inputs: inStruct(c.LayoutTS)}); err != nil {
 		fmt.Fprintf(out, "CASE-ERROR writing input file: %s\n", oneLine(err.Error()))
 		return false
 	}
-
 	args := append([]string{}, c.Flags...)
+	for _, sep := range []struct {
+		mode int
+		flag string
+		file string
+		what fileContent
+	}{
+		{c.LayoutTS, "-input-timeseries", "ts.h5", fileContent{inputs: 1}},
+		{c.LayoutPar, "-parameters", "params.h5", fileContent{params: 1}},
+		{c.LayoutSt, "-initial-states", "states.h5", fileContent{states: 1}},
+	} {
+		if sep.mode == 0 {
+			continue
+		}
+		if err := writeCaseFile(filepath.Join(dir, sep.file), c, sep.what); err != nil {
+			fmt.Fprintf(out, "CASE-ERROR writing %s: %s\n", sep.file, oneLine(err.Error()))
+			return false
+		}
+		args = append(args, sep.flag, sep.file)
+	}
+	var staleBytes []byte
+	if c.OutFile && (c.LayoutPre == 1 || c.LayoutPre == 2) {
+		// an output file left behind by an earlier run of a different graph
+		stale := &simCase{ID: "stale", T: 1, Models: []*modelSpec{{Name: "Stale", Batches: []int32{1}, NS: 1, NI: 1, HasIn: true, N: 1,
+			Params: [][]float64{{}}, States: [][]float64{{42}}, Inputs: [][]float64{{42}}}}}
+		for _, m := range c.Models {
+			stale.Models = append(stale.Models, &modelSpec{Name: m.Name, Batches: []int32{1}, NS: 1, NI: 1, HasIn: true, N: 1,
+				Params: [][]float64{{}}, States: [][]float64{{42}}, Inputs: [][]float64{{42}}})
+		}
+		if err := writeCaseFile(outFn, stale, fileContent{states: 1, inputs: 1}); err != nil {
+			fmt.Fprintf(out, "CASE-ERROR writing stale out.h5: %s\n", oneLine(err.Error()))
+			return false
+		}
+		staleBytes, _ = ioutil.ReadFile(outFn)
+	}
+	if c.LayoutPre == 1 || c.LayoutPre == 3 {
+		args = append(args, "-overwrite")
+	}
 	if len(c.Split) > 0 {
 		var pairs []string
 		for _, m := range c.Split {
@@ -333,6 +373,10 @@ func runCase(out *bufio.Writer, bin, work string, index int, casefile string) (o
 		}
 	}
 
+	if staleBytes != nil {
+		now, _ := ioutil.ReadFile(outFn)
+		fmt.Fprintf(out, "PREEXIST mode=%d unchanged=%d\n", c.LayoutPre, b2i(bytes.Equal(now, staleBytes)))
+	}
 	if !c.OutFile {
 		if _, err := os.Stat(outFn); err == nil {
 			fmt.Fprintln(out, "NOFILE created")
